@@ -18,7 +18,7 @@ RULE = ("a hostile packet recipe (templates: V2 response, V3 handshake reply, V3
         "operators: header fields set to boundary values, ciphertext length not a multiple of 16, valid signature/tag recomputed "
         "over random or truncated ciphertext, bad PKCS#7 under a valid signature, empty payload, every type nibble, wrong key, "
         "clear data, splice/concatenate, bursts of 1100/2600 identical small packets in one delivery for every type nibble, arbitrary segmentation) is sent by the model device at a protocol phase (V2 send; V3 "
-        "handshake, data after authentication, re-authentication after 12 h; or pushed unsolicited on an idle established connection before the next call, after which the peer may stay silent for the whole retry budget; optionally the same call is repeated once or twice afterwards with the peer answering normally) to one API level (LAN.authenticate/LAN.send, "
+        "handshake, data after authentication, re-authentication after 12 h; or pushed unsolicited on an idle established connection before the next call, after which the peer may stay silent for the whole retry budget; optionally the hostile bytes follow a genuine handshake reply within the 1 s settle pause; optionally the same call is repeated once or twice afterwards with the peer answering normally) to one API level (LAN.authenticate/LAN.send, "
         "Device.authenticate/Device._send_command, AirConditioner.refresh). Oracle: LAN calls end in list-of-bytes / ProtocolError "
         "(incl. AuthenticationError) / TimeoutError; Device.authenticate only AuthenticationError; Device._send_command returns a "
         "list; refresh() does not raise when the transport produced no frame. Non-trivial: hostile bytes pass marker+minimum "
@@ -69,6 +69,16 @@ def check_case(case: dict):
             orig = dev._handshake
 
             def hs(conn, p):
+                if armed["on"] and case.get("after_hs") is not None:
+                    # the handshake is answered genuinely; the hostile bytes follow a moment later, while the client is still in
+                    # the settle pause that follows a handshake (the authentication may be explicit or part of a send)
+                    armed["on"] = False
+                    orig(conn, p)
+                    key = conn.session_keys[-1] if conn.session_keys else None
+                    data = hostile.build(recipe, key)
+                    out["hostile"] = data
+                    conn.send_stream(data, delay=dev.latency + case["after_hs"], cuts=cuts)
+                    return
                 if armed["on"]:
                     armed["on"] = False
                     key = conn.session_keys[-1] if conn.session_keys else None
@@ -224,7 +234,7 @@ def _nontrivial(case) -> bool:
 
 def _run_one(ctx, case):
     import json
-    key = hash((json.dumps(case["hostile"], sort_keys=True), case["version"], case["phase"], case["api"], tuple(case.get("cuts", [])), case.get("delay"), case.get("tick"), case.get("debug"), case.get("then_close"), case.get("reset"), case.get("silent"), case.get("again")))
+    key = hash((json.dumps(case["hostile"], sort_keys=True), case["version"], case["phase"], case["api"], tuple(case.get("cuts", [])), case.get("delay"), case.get("tick"), case.get("debug"), case.get("then_close"), case.get("reset"), case.get("silent"), case.get("again"), case.get("after_hs")))
     nt = _nontrivial(case)
     cls = f"v{case['version']}/{case['phase']}/{case['api']}"
     ctx.case(key, nt, cls=cls)
@@ -328,6 +338,23 @@ def _catalogue():
                               "hostile": {"t": "v3", "ptype": 3, "cnt": cnt, "inner": {"t": "v2"}, "enc": "ok", "tag": "ok"}})
     for r in v3[:24] + v2[:8]:
         cases.append({"version": 3 if r["t"] == "v3" else 2, "phase": "send", "api": ["lan", "device", "ac"][len(cases) % 3], "cuts": [], "hostile": r, "again": 1})
+    # hostile bytes arriving during the 1 s settle pause after a genuine handshake reply (explicit authenticate, or the
+    # re-authentication inside a send after 12 h)
+    for r in v3[:16] + [{"t": "raw", "data": rc.v3_error_packet().hex()}, {"t": "v3", "ptype": 15, "inner": {"t": "raw", "data": "4552524f52"}, "enc": "clear", "tag": "none"}]:
+        for phase in ("auth", "reauth"):
+            for after in (0.0, 0.2, 0.95):
+                for api in ("lan", "device", "ac"):
+                    if phase == "auth" and api == "ac":
+                        continue
+                    cases.append({"version": 3, "phase": phase, "api": api, "cuts": [], "hostile": r, "after_hs": after, "again": 1 if phase == "reauth" else 0})
+    # signed V2 packets whose uninterpreted header fields (timestamp, message id, reserved bytes, id) hold arbitrary values
+    for ts in ("000000001e021814", "00000000010118ff", "0000000001010000", "ffffffffffffffff", "6363633b171f0c63", "0000000000000000", "00000000001f0218"):
+        for version in (2, 3):
+            for api in ("lan", "device", "ac"):
+                inner = {"t": "v2", "ts": ts, "mid": "ffffffff", "rsv": "ff" * 12, "id": 2 ** 64 - 1}
+                r = inner if version == 2 else {"t": "v3", "ptype": 3, "inner": inner, "enc": "ok", "tag": "ok"}
+                cases.append({"version": version, "phase": "send", "api": api, "cuts": [], "hostile": r, "again": 1})
+                cases.append({"version": version, "phase": "idle", "api": api, "cuts": [], "hostile": r})
     # a well-formed unsolicited packet (or a hostile one) is queued on the idle connection, then the peer stays silent
     for version, recs in ((2, v2[:6] + [{"t": "v2"}]), (3, v3[:10] + [{"t": "v3", "ptype": 3, "inner": {"t": "v2"}, "enc": "ok", "tag": "ok"}])):
         for r in recs:
@@ -370,7 +397,7 @@ def run(ctx) -> None:
             "version": st.just(version), "phase": st.sampled_from(phases), "api": st.sampled_from(["lan", "lan", "device", "ac"]),
             "hostile": hostile.recipes(version), "cuts": gens.cut_sets(200, 4)},
             optional={"delay": st.sampled_from([0.05, 1.0, 1.9985, 1.999, 1.9995, 2.0, 2.0005, 3.999, 5.9995]), "tick": st.sampled_from([0.0, 0.001]),
-                      "debug": st.sampled_from([False, False, False, True]), "silent": st.booleans(), "again": st.sampled_from([0, 0, 1, 2]), "then_close": st.sampled_from([0.0, 0.3, 1.9, 2.5]), "reset": st.booleans()}).map(
+                      "debug": st.sampled_from([False, False, False, True]), "silent": st.booleans(), "again": st.sampled_from([0, 0, 1, 2]), "after_hs": st.sampled_from([0.0, 0.3, 0.99]), "then_close": st.sampled_from([0.0, 0.3, 1.9, 2.5]), "reset": st.booleans()}).map(
                 lambda c: dict(c, api="lan") if (c["api"] == "ac" and c["phase"] == "auth") else c)
 
     ctx.hyp("v3", cases(3), lambda c: _run_one(ctx, c), ctx.n(6000, 400000))
